@@ -387,3 +387,9 @@ pub fn replay(kind: &str, case: &J, rec: &mut Rec) -> Verdict {
 pub fn check_text_pub(c: &FText, rec: &mut Rec) -> Verdict {
     check_text(c, rec)
 }
+
+/// libFuzzer input layout of the `filter_parse` target: six bytes of ref graph, then the text
+pub fn ftext_from_fuzz(data: &[u8]) -> FText {
+    let (next, body) = if data.len() > 6 { (data[..6].iter().map(|b| b % 6).collect(), &data[6..]) } else { (vec![1, 2, 0, 4, 5, 3], data) };
+    FText { bytes: body.to_vec(), origin: "libfuzzer".into(), next }
+}
